@@ -2,8 +2,8 @@
    Directives used: ExtrOcamlBasic, ExtrOcamlZBigInt (positive/N/Z -> zarith big_int). *)
 From Coq Require Import ZArith List.
 From Coq Require Extraction ExtrOcamlBasic ExtrOcamlZBigInt.
-From MV Require Import Base.Field Core.Op Core.Batch Core.Rpo Core.Mast Vm.State Vm.Step Vm.Exec.
+From MV Require Import Base.Field Core.Op Core.Batch Core.Rpo Core.Mast Vm.State Vm.Step Vm.Exec Vm.Options.
 Extraction Language OCaml.
 Extraction "../driver/gen/model.ml"
   Field.P Op.opcode Batch.batch_ops Batch.span_group_count Rpo.rpo_permute Rpo.hash_elements Rpo.merge_in_domain
-  Mast.block_hash Mast.mkProgram State.init_state Step.steps Exec.span_stream Exec.exec_program.
+  Mast.block_hash Mast.mkProgram State.init_state Step.steps Exec.span_stream Exec.exec_program Options.exec_options_new.
